@@ -97,6 +97,21 @@ PROPS = {
         level_note=('Trusted: refsem/rule_env.rs (conjunction order atomic->composite->relational as documented, `any` first winning branch, relations nearest-first with every candidate starting from the '
                     'incoming environment), Pattern atoms delegated to the real Pattern on a fresh env copy. nthChild.ofRule is restricted to kind/regex here (its capturing form is C05\'s known finding).'),
     ),
+    'C01': dict(
+        engines=[('vmon', 'c01'), ('py', 'c01_cli')],
+        cli=True,
+        technique='runtime monitoring: differential oracle (accelerated search vs per-node matching over a DFS) + invariant hooks at every prune site (the skipped work is evaluated and must not match) + CLI vs library comparison',
+        rule=('library: per corpus excerpt and error-ridden variant (23 languages): cut patterns at all five strictness levels, contextual patterns with selector, kind and regex matchers, '
+              'generated rule documents (utilities, composite and relational operators, with and without fix) alone and in sets of 1-8 scanned together; find_all must equal per-node '
+              'match_node over a DFS in document order, the overlap-free visitor must equal the matches without a matching proper ancestor, CombinedScan (separate_fix false/true) must equal each '
+              'rule alone; hook H1 re-evaluates the skipped work at FindAllNodes, All/Any kind caches, RuleCore kinds, CombinedScan kind dispatch (would_match=true is a violation). '
+              'CLI: for 8 (quick) / 23 (thorough) languages a directory of corpus files is searched with `ast-grep run -p .. -l .. --strictness .. [--selector ..] --json=stream` and '
+              '`ast-grep scan -r rule.yml --json=stream`; the multiset of (file, byte range) must equal the library answer per file and the H1 event log of the binary (literal prefilter) must be empty. '
+              'evaluations = matcher/source cases + CLI invocations. Non-trivial = distinct cases whose matcher has a kind set (acceleration active) and matches >= 1 node; rule sets with >= 2 rules; CLI queries with >= 1 expected match.'),
+        floor={'quick': 10000, 'thorough': 150000},
+        level_text='Tens of thousands of searches and ~50 M observed prune decisions per quick run, each prune decision individually checked by evaluating the skipped work; held on the executions observed.',
+        level_note='Trusted: Pre-order dfs() (checked by C19), match_node on a single node (judged by C02-C05). The prune hooks only ADD evaluation; the CLI comparison uses the hooked release binary.',
+    ),
 }
 
 NOT_APPLICABLE = {}
